@@ -623,6 +623,9 @@ def run(repo, rep, tier):
   r1_lists(rep, closure, T)
   r1_division(rep, closure, T, K, B)
   r2_termination(repo, rep, closure)
+  from mmsa.props import c09_extra
+  c09_extra.r1f_optional(repo, rep, closure)
+  c09_extra.r1d_greedy_keys(repo, rep)
   # R1e: shared with C10 — indices never refer to a stale array
   from mmsa.props import c10
   sub = type(rep)(rep.prop, rep.tier, rep.repo)
